@@ -19,7 +19,7 @@ Section Read.
           Do (OpRead (PHead b)) (fun r =>
             match head_status r with
             | HPanic => Panic
-            | HErr => k None                                 (* Band::open(..)? propagates *)
+            | HErr => last_complete ids' k                   (* a band that cannot be opened is skipped (warn! + continue) *)
             | HOk =>
                 Do (OpMeta (PTail b)) (fun r2 =>
                   match r2 with
